@@ -13,7 +13,7 @@ BOUNDS = dict(quick='n <= 5 points (concrete x patterns; x symbolic for n <= 4),
 ASSUMPTIONS = ['exact real arithmetic (T1)', 'y >= 0 (performance curve), x strictly increasing', 'log uninterpreted (shared by code and spec)',
                'cache transparency is proved as equality of the returned real values for all inputs; bit-identity then follows because a cache hit returns a value '
                'computed earlier by the same code on the same sub-array (replays compare floats with ==)']
-CONFIG = dict(quick=dict(budget_s=160, case_wall_s=120), thorough=dict(budget_s=900, case_wall_s=600))
+CONFIG = dict(quick=dict(budget_s=160, case_wall_s=120), thorough=dict(max_cases=1446, budget_s=900, case_wall_s=600))
 METRICS = ['r2', 'rmspe', 'rmsle', 'rpd', 'smape']
 EPS = Fr(1, 10 ** 16)
 
